@@ -237,7 +237,11 @@ class AquaCropModel:
         self._outputs = Output(self._clock_struct.time_span, self._init_cond.th)
 
         # save model _weather to _init_cond
-        self._weather = self.weather_df.values
+        # (the time step reads this matrix by position: select the columns by name so that
+        # the order of the user's columns, or additional columns, do not matter)
+        self._weather = self.weather_df[
+            ["MinTemp", "MaxTemp", "Precipitation", "ReferenceET", "Date"]
+        ].values
 
     def run_model(
         self,
